@@ -123,6 +123,23 @@ CHECKS = {
          'such program (spec <-> CPython <-> pfst), and on corpus programs through AST ownership rules and a symtable sandwich.',
          'TLA+/TLC exhaustive enumeration of abstract programs (state dump as case table) + batched TLC trace validation; '
          'oracle symtable/ast'),
+ 'C17': ('model_checking', '4-C17',
+         'Model checking of an explicit TLA+ semantics of quantified list patterns (operational first match equals a '
+         'declarative one; 63k / 667k instances); trace validation of the real pfst against it within bounds (list length '
+         '<= 3, word length <= 4, 8411 decoded items; lists of <= 2 flat items x all words exhaustive in the thorough tier) '
+         'with re.fullmatch on the spec-written regex as an independent cross-check; TLC-validated structure-only, '
+         'history-free, own-AST, one-leaf-mutant and search = filter-of-walk clauses on the corpus x re-layouts x pure AST.',
+         'TLC model checking (QuantMC) + TLC-generated JSON case tables replayed into pfst and re (QuantGen -> QuantTrace) + '
+         'TLC trace validation of recorded match and search executions (MatchTrace)'),
+ 'C18': ('model_checking', '4-C18',
+         'Explicit TLA+ reference transformer (Template.tla), model-checked against an implementation-shaped model of the '
+         'subn() walk (TemplateMC.tla, all abstract trees <= 3 (quick) / <= 4 (thorough) nodes x label-set patterns x templates '
+         '<= 2 nodes x nested/count/loop/on/back) and bound to pfst in both directions: terminal model states and a '
+         'TLC-generated pattern x template x settings table are replayed on corpus programs x layouts, and every real subn() '
+         'call is trace-validated by TLC, one event per substitution (TemplateRel, Sync, counts, token/line locality), within '
+         'the stated slot-class domain.',
+         'TLC model checking + TLC-generated cases + batched trace validation; stdlib-only projection and pure-AST reference '
+         'used only for validity and cross-check'),
 }
 
 NOT_YET = {}
